@@ -6,6 +6,7 @@ From Coq Require Import List NArith ZArith Bool Permutation.
 Import ListNotations.
 Require Import Verif.Lib.Wire Verif.Gen.Facts_C18 Verif.Model.C18.
 Require Import Verif.Proofs.C18_kahn Verif.Proofs.C18_build Verif.Proofs.C18 Verif.Proofs.C18_rep Verif.Proofs.C18_cycle.
+Require Import Verif.Proofs.C18_gen.
 
 (* the emission loop never runs out of fuel and never looks up a deleted node *)
 Theorem C18_sorted_total : forall s, sorted s <> Internal.
@@ -192,3 +193,59 @@ Theorem C18_tweens_history_judged : forall ex evs,
          (hist_looks (tweens_init ex) tweens_init_decls evs).
 Proof. exact tweens_history_judged. Qed.
 Print Assumptions C18_tweens_history_judged.
+
+(* =====================================================================
+   The program regenerated from the source on this run (Gen/Facts_C18.v, by
+   harness/c18/translate.py) equals the reference model, for all inputs *)
+Theorem C18_gen_remove_is_model : forall s n, gen_remove s n = remove n s.
+Proof. exact gen_remove_is_model. Qed.
+Print Assumptions C18_gen_remove_is_model.
+
+Theorem C18_gen_add_is_model : forall s n v a b, gen_add s n v a b = Some (add n v a b s).
+Proof. exact gen_add_is_model. Qed.
+Print Assumptions C18_gen_add_is_model.
+
+Theorem C18_gen_sorted_is_model : forall s, gen_sorted s = sorted s.
+Proof. exact gen_sorted_is_model. Qed.
+Print Assumptions C18_gen_sorted_is_model.
+
+Theorem C18_gen_tweens_are_model : forall t n f u o h,
+  gen_tw_add_explicit t n f = add_explicit n f t /\
+  gen_tw_add_implicit t n f u o = Some (add_implicit n f u o t) /\
+  gen_tw_implicit t = implicit t /\
+  gen_tw_call t h = tweens_call t h.
+Proof. exact gen_tweens_are_model. Qed.
+Print Assumptions C18_gen_tweens_are_model.
+
+Theorem C18_gen_apply_view_derivers_is_model : forall s v,
+  gen_apply_view_derivers s v = apply_view_derivers s v.
+Proof. exact gen_apply_view_derivers_is_model. Qed.
+Print Assumptions C18_gen_apply_view_derivers_is_model.
+
+(* the property theorems, restated about the REGENERATED program *)
+Theorem C18_gen_model_judged : forall c ops, steps_ok c [] ops (gen_run_ops (new_sorter c) ops).
+Proof. exact gen_model_judged. Qed.
+Print Assumptions C18_gen_model_judged.
+
+Theorem C18_gen_sorted_total : forall s, gen_sorted s <> Internal.
+Proof. exact gen_sorted_total. Qed.
+Print Assumptions C18_gen_sorted_total.
+
+Theorem C18_gen_tweens_nesting : forall t h,
+  gen_tw_call t Base = inr h ->
+  exists use,
+    (tw_explicit t <> [] -> use = tw_explicit t) /\
+    (tw_explicit t = [] -> gen_tw_implicit t = Sorted use) /\
+    h = wrap_right use Base /\
+    trace h = map (fun nf => Enter (fst nf)) use ++ [Call] ++ map (fun nf => Exit (fst nf)) (rev use).
+Proof. exact gen_tweens_nesting. Qed.
+Print Assumptions C18_gen_tweens_nesting.
+
+Theorem C18_gen_derivers_nesting : forall s h,
+  gen_apply_view_derivers s Base = inr h ->
+  exists ds, gen_sorted s = Sorted ds /\
+    let all := map (fun n => (n, 0%N)) dv_outer ++ ds in
+    h = wrap_right all Base /\
+    trace h = map (fun nf => Enter (fst nf)) all ++ [Call] ++ map (fun nf => Exit (fst nf)) (rev all).
+Proof. exact gen_derivers_nesting. Qed.
+Print Assumptions C18_gen_derivers_nesting.
